@@ -6,6 +6,11 @@ What runs (see design_notes/C18.md):
      from the live classes; `lake build BqVerif.Props.C18` re-proves (by
      `decide`) that it equals the hand-written shape table, and re-checks the
      algebraic theorems (unitarity / gradient / inverse / composition).
+     translate/gate_identity.py regenerates Generated/GateIdentity.lean (what
+     every `__eq__`/`__hash__` reads, from the AST of the live classes): equal
+     to the model's table and coherent (`C18_identity_*`).
+  1b. harness/c18_identity.py: ==/hash on families of constructor-argument
+     variants of every class (see there).
   2. Every concrete class exported by `bqskit.ir.gates` is discovered by
      introspection and instantiated over a sweep of constructor arguments
      (radix 2-5, 1-3 controls and control levels, powers -3..3, frozen subsets,
@@ -606,6 +611,9 @@ def gen_points(spec, np_, rates, rng, thorough, large=1e3):
             for p, r, k in zip(ex, rates, ks):
                 p.phi = k * PI / 4 if r == 'half' else k * PI / 2
         pts.append(('halfpi', vals, ex))
+    # one full turn and a bit, alternating signs (deterministic: a reduction of the angle
+    # modulo 2 pi - instead of 4 pi for half-angle gates - shows here on every run)
+    pts.append(('wrap', [(2 * PI + 0.7) * (1 if i % 2 == 0 else -1) for i in range(np_)], None))
     # large
     for _ in range(2 * mult):
         pts.append(('large', [rng.uniform(-large, large) for _ in range(np_)], None))
@@ -1212,6 +1220,12 @@ def replay(ck: Check):
             n += 1
             ck.violation(sig, what, rep, found_input=f)
         ck.count(('replay', rp['spec']))
+    elif 'a_expr' in rp:
+        from harness import c18_identity
+        ck.count(('replay', rp['a_expr'], rp.get('b_expr')))
+        for kind, cls, text in c18_identity.replay_pair(rp):
+            n += 1
+            ck.violation(f'{kind}:{cls}', text, rp)
     elif 'a' in rp and 'b' in rp:
         a, b = build(ast.literal_eval(rp['a'])), build(ast.literal_eval(rp['b']))
         sa = outer_class(ast.literal_eval(rp['a']))
@@ -1248,15 +1262,15 @@ def run(ck: Check):
         _t0[0] = _t.time()
 
     # ------------------------------------------------ (B) shapes + obligations
-    from translate import gate_shapes
+    from translate import gate_identity, gate_shapes
     try:
         shape_rows = gate_shapes.write()
     except Exception as e:
         raise InfraError(f'translate/gate_shapes.py failed: {e!r}')
-    proved = ck.lean_obligations()
-    ck.coverage['shape_rows'] = len(shape_rows)
-    phase('lean')
-
+    try:
+        id_rows = gate_identity.write()
+    except Exception as e:
+        raise InfraError(f'translate/gate_identity.py failed: {e!r}')
     # ------------------------------------------------------------ discovery
     found = discover()
     ck.coverage['exported_names'] = len(found)
@@ -1267,9 +1281,23 @@ def run(ck: Check):
         ('cls', 'MeasurementPlaceholder', ([('c', 2)], {0: ('c', 0), 1: ('c', 1)})),
     ]
     special_specs = [s for s in special_specs if s[1] in found]
+    ctx = mp.get_context('fork')
+    # the identity families (== / hash over argument variants) run in a child process
+    # while Lean checks the obligations
+    from harness import c18_identity
+    id_pool = ctx.Pool(1)
+    id_async = id_pool.apply_async(
+        c18_identity.run_recorded,
+        (found, base_specs + special_specs, rng.getrandbits(48), thorough))
+
+    proved = ck.lean_obligations()
+    ck.coverage['shape_rows'] = len(shape_rows)
+    ck.coverage['identity_rows'] = len(id_rows)
+    ck.coverage['identity_rows_with_own_eq_or_hash'] = sum(
+        1 for r in id_rows if r[1] != 'object' or r[2] != 'object')
+    phase('lean')
 
     nproc = min(8, os.cpu_count() or 2)
-    ctx = mp.get_context('fork')
 
     def run_batch(specs, phase, bad_opt=frozenset()):
         tasks = []
@@ -1568,6 +1596,24 @@ def run(ck: Check):
     ck.coverage['eq_pairs_checked'] = neq
     phase('eq')
 
+    # ------------------- identity families: == / hash over argument variants
+    try:
+        rec = id_async.get(timeout=3000)
+    except Exception as e:
+        raise InfraError(f'identity families: child process failed: {e!r}')
+    finally:
+        id_pool.terminate()
+    if 'error' in rec:
+        raise InfraError('identity families failed:\n' + rec['error'])
+    for key in rec['counts']:
+        ck.count(key)
+    for sm in rec['samples']:
+        ck.sample(sm, limit=8)
+    for sig, what, rep, fi in rec['violations']:
+        ck.violation(sig, what, rep, found_input=fi)
+    ck.coverage['identity_families'] = rec['stats']
+    phase('identity')
+
     # ------------------------------------------------------ malformed stream
     nmal = malformed(ck, rng)
     ck.coverage['malformed_requests'] = nmal
@@ -1587,13 +1633,16 @@ def run(ck: Check):
         'every vector a distinct evaluation (constant gates contribute one case)')
     if not proved:
         sd = gate_shapes.diff_against_model()
+        idd = gate_identity.diff_against_model()
         ck.violation(
             'proof-obligation', 'Lean obligations of Props/C18 do not check; '
             + (f'shape rows that differ from the model table: {sd[:3]}; ' if sd else
                'shape table unchanged; ')
+            + (f'__eq__/__hash__ rows that differ from the model table: {idd[:2]}; ' if idd else
+               'identity table unchanged; ')
             + 'build log tail: ' + ' '.join((ck.proof_failure or '').split())[-300:],
             {'broken': 'BqVerif.Props.C18', 'log': ck.proof_failure,
-             'shape_diff': sd},
+             'shape_diff': sd, 'identity_diff': idd},
             found_input=False)
     ck.assumptions += [
         'the carrier of the theorems is an arbitrary commutative *-ring with '
